@@ -92,6 +92,9 @@ TABLE = [
      re.compile(r'\(&mut ([\w.]+)\)\s*\.take\(([^;]*?)\)\s*\.read_to_end\(&mut (\w+)\)'), r'vio_read_to_end_take(&mut \1, \2, &mut \3)'),
     ('R8', 'io::copy(&mut (&mut X).take(N), &mut io::sink()) -> vio_skip_take',
      re.compile(r'io::copy\(\s*&mut \(&mut ([\w.]+)\)\.take\(([^;]*?)\),\s*&mut io::sink\(\),?\s*\)'), r'vio_skip_take(&mut \1, \2)'),
+    ('R8', 'BufReader::new(buf); io::copy(&mut src.take(n), &mut vec) -> vio_copy_slice_take',
+     re.compile(r'let (\w+) = BufReader::new\((\w+)\);\s*io::copy\(&mut \1\.take\((\w+)\), &mut (\w+)\)'), r'vio_copy_slice_take(\2, \3, &mut \4)'),
+    ('R8', 'X.write_all(B) -> vio_write_all(&mut X, B)', re.compile(r'\b(self\.inner|inner|dest|self\.dest)\.write_all\(([^;]*?)\)(\?|;|\s*$)', re.M), r'vio_write_all(&mut \1, \2)\3'),
     ('R11', 'cursor.get_mut().clear() -> cursor.vclear()', re.compile(r'\.get_mut\(\)\s*\.clear\(\)'), '.vclear()'),
     ('R5', 'i64::try_from(u64) -> vconv', re.compile(r'\bi64::try_from\('), 'vconv_i64_try_from_u64('),
 ]
